@@ -5,6 +5,7 @@ import (
 	"errors"
 	"fmt"
 	"strings"
+	"sync"
 	"time"
 
 	json "github.com/go-json-experiment/json"
@@ -141,7 +142,7 @@ type ToFrom struct {
 	Got []string
 }
 
-var bigAvail = strings.Repeat("0123456789abcdef", 100<<10/16)
+var bigAvail = sync.OnceValue(func() string { return strings.Repeat("0123456789abcdef", 100<<10/16) })
 
 func (x ToFrom) MarshalJSONTo(enc *jsontext.Encoder) error {
 	switch x.M {
@@ -188,7 +189,7 @@ func (x ToFrom) MarshalJSONTo(enc *jsontext.Encoder) error {
 		b := enc.AvailableBuffer()
 		b = append(b, '"')
 		if x.M == MAvailBig {
-			b = append(b, bigAvail...)
+			b = append(b, bigAvail()...)
 		} else {
 			b = append(b, "avail"...)
 		}
